@@ -141,7 +141,12 @@ pub enum Outcome {
 pub enum Ev {
     /// environment op applied (index into scenario ops, short description)
     Env { op: String },
-    PollStart { task: usize },
+    PollStart {
+        task: usize,
+        /// polled with a nearly exhausted cooperative-scheduling budget (StepCoop): tokio resources may
+        /// answer Pending although they hold items; the wake-up they schedule is delivered at the next yield
+        coop: bool,
+    },
     PollEnd {
         task: usize,
         out: String,
